@@ -10,7 +10,8 @@ def generate(rng, tier):
     for _ in range(n):
         k = rng.randint(1, 8)
         pts = sorted(rng.sample(PTS, rng.randint(3, 8)))
-        st = planted_equiv(rng, k, pts) if rng.random() < 0.4 else complete_spec(rng, k, pts, full_cover_prob=0.3)[0]
+        r0 = rng.random()
+        st = tiny_alphabet_spec(rng, k) if r0 < 0.12 else (planted_equiv(rng, k, pts) if r0 < 0.5 else complete_spec(rng, k, pts, full_cover_prob=0.3)[0])
         probes = sorted(set(pts + [p + 1 for p in pts if p < MAXC]))
         st += ["buildu", "table", "alphabet", "edges", "finals", "prune", "table", "nextall %d %s" % (len(probes), " ".join(map(str, probes))),
                "acceptsall 3 %s" % ("3 %d %d %d" % tuple(rng.sample(pts, 3)))]
